@@ -366,7 +366,14 @@ def run_check(pid, tier, seed, prop, gen_needed, tie, search=None, trusted=(), a
     gen_bad = {k: v for k, v in gen.items() if (k in gen_needed or k == 'translator') and not str(v).startswith('ok')}
     proofs_ok = ok and stats['ok'] and not bad_src and not gen_bad
     t = tie(res) or {}
-    failures = t.get('failures', [])
+    # a failure marked level='model' says that the implementation and the MODEL disagree (an executable definition replayed on a
+    # recorded run, an invariant of the model read off the real structure): that is a broken correspondence, not by itself a
+    # violation of the property - the search then looks for a property-level failing input
+    model_fails = [f for f in t.get('failures', []) if isinstance(f, dict) and f.get('level') == 'model']
+    failures = [f for f in t.get('failures', []) if not (isinstance(f, dict) and f.get('level') == 'model')]
+    if model_fails and not failures:
+        t['ok'] = False
+        t['msg'] = t.get('msg') or ('the implementation and the model disagree: ' + str(model_fails[0].get('what', model_fails[0])))
     res.known.extend(t.get('known', []))
     if failures:
         res.violation('input', {'property': pid, 'kind': t.get('kind', 'enumeration'), 'failures': failures[:20],
@@ -375,7 +382,7 @@ def run_check(pid, tier, seed, prop, gen_needed, tie, search=None, trusted=(), a
     elif not proofs_ok or not t.get('ok', False):
         broken = [{'file': f, 'line': l, 'statement': s, 'error': m} for f, l, s, m in fails]
         if not t.get('ok', False):
-            broken.append({'correspondence': t.get('msg', 'tie not established')})
+            broken.append({'correspondence': t.get('msg', 'tie not established'), 'disagreements': model_fails[:5]})
         if bad_src:
             broken.append({'audit': bad_src})
         if gen_bad:
